@@ -10,7 +10,7 @@ use crate::probe::{Decision, Probe};
 use crate::statejson::{self, ShapeSpec};
 
 pub const TITLE: &str = "A rejected move leaves no trace; the result is the last accepted state";
-pub const RULE: &str = "part scripted: synthetic states with 2..8 parameters, bounds either so narrow that clamping is frequent (range 1, moves up to +-range/2) or wide (never clamped), optionally one parameter starting outside its bounds, 1..20 inner loops, any kT, with and without a convergence threshold, and a cyclic adversarial script of forced outcomes (accept by 'better'/'equal', reject by 'undefined', 'worse' = reject at kT=0 and either at kT>0). History invariants: (1) every proposal differs in at most one coordinate, all others bit-identical, from some state the optimiser can be in, where after each step that state is either exactly the proposal or exactly the previous state whatever the decision was (a proposal without a score can only be followed by the previous state); (2) the parameters of the returned state are one of the states the history allows, and when every interior forced decision was honoured they are bit-for-bit the last accepted proposal (or the input if none); (3) the final validity evaluation sees the returned parameters. part real: the same decision-agnostic invariants on real hard and Lennard-Jones states at kT=0 and kT>0. Non-trivial = the history contains accept, reject, reject on one coordinate (the stale-backup pattern) or a clamped proposal that is rejected; distinct by hash of the case.";
+pub const RULE: &str = "part scripted: synthetic states with 2..8 parameters, bounds either so narrow that clamping is frequent (range 1, moves up to +-range/2) or wide (never clamped), optionally one parameter starting outside its bounds or one parameter with no room to move (min = max), 1..20 inner loops, any kT, with and without a convergence threshold, and a cyclic adversarial script of forced outcomes (accept by 'better'/'equal', reject by 'undefined', 'worse' = reject at kT=0 and either at kT>0). History invariants: (1) every proposal differs in at most one coordinate, all others bit-identical, from some state the optimiser can be in, where after each step that state is either exactly the proposal or exactly the previous state whatever the decision was (a proposal without a score can only be followed by the previous state); (2) the parameters of the returned state are one of the states the history allows, and when every interior forced decision was honoured they are bit-for-bit the last accepted proposal (or the input if none); (3) the final validity evaluation sees the returned parameters. part real: the same decision-agnostic invariants on real hard and Lennard-Jones states at kT=0 and kT>0. Non-trivial = the history contains accept, reject, reject on one coordinate (the stale-backup pattern) or a clamped proposal that is rejected; distinct by hash of the case.";
 
 pub fn assumptions() -> Vec<&'static str> {
     vec![
@@ -27,6 +27,9 @@ pub struct ScriptCase {
     pub decisions: Vec<Decision>,
     /// Some((i, offset)): parameter i starts outside its bounds by `offset` ranges (a state read from a file may)
     pub outside: Option<(u16, f64)>,
+    /// Some(i): parameter i has no room to move (min = max = its value), as a cell ratio that sits on 0.1 has
+    #[serde(default)]
+    pub fixed: Option<u16>,
 }
 
 fn any_cfg(max_steps: u64, max_loops: u64) -> BoxedStrategy<OptCfg> {
@@ -54,15 +57,19 @@ fn c06_decision() -> BoxedStrategy<Decision> {
 }
 
 fn script_strat(_: &Ctx) -> BoxedStrategy<ScriptCase> {
-    (any_cfg(4000, 60), 2usize..=8, any::<bool>(), proptest::collection::vec(c06_decision(), 1..64), prop_oneof![5 => Just(None), 1 => (any::<u16>(), prop_oneof![0.01..1.0f64, -1.0..-0.01f64]).prop_map(Some)])
-        .prop_map(|(cfg, n, wide, decisions, outside)| ScriptCase { cfg, n, wide, decisions, outside })
+    (any_cfg(4000, 60), 2usize..=8, any::<bool>(), proptest::collection::vec(c06_decision(), 1..64), prop_oneof![5 => Just(None), 1 => (any::<u16>(), prop_oneof![0.01..1.0f64, -1.0..-0.01f64]).prop_map(Some)], prop_oneof![5 => Just(None), 1 => any::<u16>().prop_map(Some)])
+        .prop_map(|(cfg, n, wide, decisions, outside, fixed)| ScriptCase { cfg, n, wide, decisions, outside, fixed })
         .boxed()
 }
 
 fn script_oracle(c: &ScriptCase, rec: &Rec, _: &Ctx) -> Result<(), String> {
     let (lo, hi) = if c.wide { (-1.0e6, 1.0e6) } else { (0., 1.) };
     let mut init = vec![0.5 * (lo + hi) + 0.25; c.n];
-    let bounds = vec![(lo, hi); c.n];
+    let mut bounds = vec![(lo, hi); c.n];
+    if let Some(i) = c.fixed {
+        let i = crate::engine::idx(i, c.n);
+        bounds[i] = (init[i], init[i]);
+    }
     if let Some((i, off)) = c.outside {
         let i = crate::engine::idx(i, c.n);
         init[i] = if off > 0. { hi + off * (hi - lo) } else { lo + off * (hi - lo) };
